@@ -30,21 +30,21 @@ UNITS = {
                  n=dict(quick=2, thorough=3), bound='none (loop-free, payloads K=u8, V=u16 fully symbolic)',
                  functions=[dict(function='PutResult::{eq, clone, Copy}', file='src/lib.rs', line=0, props=['C12'])],
                  assumptions=['PutResult impls are parametric in K, V (they only call ==/clone on payloads): checked for K=u8, V=u16']),
-    'K-RAW': dict(engine='kani', files=['harness_raw.rs'], module={'harness_raw.rs': 'lru::raw::verif_hooks::harness'},
+    'K-RAW': dict(engine='kani', files=['harness_raw.rs'], support_files=['gen.rs'], module={'harness_raw.rs': 'lru::raw::verif_hooks::harness'},
                   n=dict(quick=2, thorough=3), bound='list length <= {N}, capacity <= {N} (history length unbounded: arbitrary well-formed pre-state)',
                   timeout=dict(quick=900, thorough=3600),
                   functions=[dict(function='RawLRU::' + f, file='src/lru/raw.rs', line=0, props=['C01', 'C02', 'C03', 'C05', 'C06', 'C12', 'C13'])
                              for f in ['put', 'capturing_put', 'replace_or_create_node', 'get', 'get_', 'get_mut', 'get_mut_', 'peek', 'peek_', 'peek_mut', 'peek_mut_',
                                        'contains', 'remove', 'attach', 'detach', 'len', 'cap', 'is_empty']],
                   assumptions=SHIM_ASSUMPTIONS),
-    'K-CB': dict(engine='kani', files=['harness_raw_cb.rs'], support_files=['harness_raw.rs'],
+    'K-CB': dict(engine='kani', files=['harness_raw_cb.rs'], support_files=['harness_raw.rs', 'gen.rs'],
                  module={'harness_raw_cb.rs': 'lru::raw::verif_hooks::harness_cb'},
                  n=dict(quick=2, thorough=3), bound='list length <= {N}, capacity <= {N}',
                  timeout=dict(quick=900, thorough=3600),
                  functions=[dict(function='RawLRU::' + f, file='src/lru/raw.rs', line=0, props=['C15'])
                             for f in ['cb', 'capturing_put', 'remove', 'remove_lru', 'purge', 'resize', 'with_on_evict_cb_and_hasher']],
                  assumptions=SHIM_ASSUMPTIONS + ['with_on_evict_cb (RandomState hasher) differs from with_on_evict_cb_and_hasher only in the hasher argument; only the latter is executed under Kani']),
-    'K-LIFE': dict(engine='kani', files=['harness_raw_life.rs'], support_files=['harness_raw.rs'],
+    'K-LIFE': dict(engine='kani', files=['harness_raw_life.rs'], support_files=['harness_raw.rs', 'gen.rs'],
                    module={'harness_raw_life.rs': 'lru::raw::verif_hooks::harness_life'},
                    n=dict(quick=2, thorough=3), bound='list length <= {N}, capacity <= {N}; 16 tracked object ids',
                    timeout=dict(quick=900, thorough=3600),
@@ -52,7 +52,16 @@ UNITS = {
                               for f in ['clone', 'drop', 'capturing_put', 'replace_or_create_node', 'remove', 'remove_lru', 'remove_lru_in', 'purge', 'resize',
                                         'get', 'peek', 'peek_mut', 'contains (borrowed Q)', 'KeyWrapper::from_ref', 'KeyRef::borrow']],
                    assumptions=SHIM_ASSUMPTIONS),
-    'K-ITER': dict(engine='kani', files=['harness_raw_iter.rs'], support_files=['harness_raw.rs'],
+    'K-SEG': dict(engine='kani', files=['harness_segmented.rs'], support_files=['harness_raw.rs', 'gen.rs'],
+                  module={'harness_segmented.rs': 'lru::segmented::verif_hooks::harness'},
+                  n=dict(quick=2, thorough=3), bound='each segment: length <= {N}, capacity in 1..={N}',
+                  timeout=dict(quick=1200, thorough=5400),
+                  functions=[dict(function='SegmentedCache::' + f, file='src/lru/segmented.rs', line=0, props=['C01', 'C02', 'C03', 'C05', 'C07', 'C12', 'C13', 'C16', 'C17'])
+                             for f in ['put', 'get', 'get_mut', 'peek', 'peek_mut', 'contains', 'remove', 'purge', 'len', 'cap', 'is_empty', 'move_to_protected',
+                                       'put_protected', 'peek_{lru,mru}(_mut)_from_{probationary,protected}', 'remove_lru_from_{probationary,protected}',
+                                       '{protected,probationary}_{len,cap}', 'clone', 'drop']],
+                  assumptions=SHIM_ASSUMPTIONS),
+    'K-ITER': dict(engine='kani', files=['harness_raw_iter.rs'], support_files=['harness_raw.rs', 'gen.rs'],
                    module={'harness_raw_iter.rs': 'lru::raw::verif_hooks::harness_iter'},
                    n=dict(quick=2, thorough=3), bound='list length <= {N}+1, schedule of next/next_back of length {N}+3 (= len()+2 at full length)',
                    timeout=dict(quick=900, thorough=3600),
